@@ -64,4 +64,81 @@ theorem lfp_subset (univ : List α) (derive : (α → Bool) → α → Bool)
     ∀ x ∈ S, x ∈ univ :=
   lfp_sound univ derive (· ∈ univ) (fun _ _ x hx _ => hx) fuel S0 S h0 h
 
+/-! ### termination: `|univ| + 1` rounds always suffice -/
+
+theorem filter_length_lt {β : Type} (l : List β) (p q : β → Bool) (hqp : ∀ y, q y = true → p y = true)
+    (hx : ∃ x ∈ l, p x = true ∧ q x = false) : (l.filter q).length < (l.filter p).length := by
+  induction l with
+  | nil => obtain ⟨x, hx, _⟩ := hx; cases hx
+  | cons a as ih =>
+    obtain ⟨x, hxm, hpx, hqx⟩ := hx
+    have hle : ∀ (l : List β), (l.filter q).length ≤ (l.filter p).length := by
+      intro l
+      induction l with
+      | nil => simp
+      | cons b bs ihb =>
+        simp only [List.filter_cons]
+        cases hqb : q b with
+        | true => simp [hqp b hqb]; exact ihb
+        | false =>
+          cases hpb : p b with
+          | true => simp; omega
+          | false => simpa using ihb
+    simp only [List.filter_cons]
+    rcases List.mem_cons.mp hxm with rfl | hxa
+    · simp only [hqx, hpx, if_true, List.length_cons, Bool.false_eq_true, if_false]
+      have := hle as
+      omega
+    · have := ih ⟨x, hxa, hpx, hqx⟩
+      cases hqa : q a with
+      | true => simp [hqp a hqa]; exact this
+      | false =>
+        cases hpa : p a with
+        | true => simp; omega
+        | false => simpa using this
+
+/-- elements of the universe not yet in `S` -/
+def missing (univ S : List α) : Nat := (univ.filter (fun x => !S.contains x)).length
+
+/-- **The iteration terminates**: every non-final round moves at least one element of the universe
+into the set, so more fuel than there are missing elements always yields an answer. -/
+theorem lfp_total (univ : List α) (derive : (α → Bool) → α → Bool) :
+    ∀ (fuel : Nat) (S : List α), missing univ S < fuel → ∃ R, lfp univ derive fuel S = some R := by
+  intro fuel
+  induction fuel with
+  | zero => intro S h; omega
+  | succ n ih =>
+    intro S h
+    simp only [lfp]
+    split
+    · exact ⟨S, rfl⟩
+    · next hne =>
+      apply ih
+      have hlt : missing univ (S ++ step univ derive S) < missing univ S := by
+        unfold missing
+        apply filter_length_lt
+        · intro y hy
+          simp only [Bool.not_eq_true', List.contains_eq_mem, decide_eq_false_iff_not, List.mem_append, not_or] at hy ⊢
+          exact hy.1
+        · cases hs : step univ derive S with
+          | nil => rw [hs] at hne; simp at hne
+          | cons x xs =>
+            have hx : x ∈ step univ derive S := by rw [hs]; simp
+            have hx' := hx
+            simp only [step, List.mem_filter, Bool.and_eq_true, Bool.not_eq_true', List.contains_eq_mem,
+              decide_eq_false_iff_not] at hx'
+            refine ⟨x, hx'.1, ?_, ?_⟩
+            · simpa using hx'.2.1
+            · simp only [Bool.not_eq_false', List.contains_eq_mem, decide_eq_true_eq, List.mem_append]
+              exact Or.inr (by rw [← hs]; exact hx)
+      omega
+
+/-- started from the empty set, `|univ| + 1` units of fuel suffice -/
+theorem lfp_total_empty (univ : List α) (derive : (α → Bool) → α → Bool) :
+    ∃ R, lfp univ derive (univ.length + 1) [] = some R := by
+  apply lfp_total
+  unfold missing
+  have : (univ.filter (fun x => !([] : List α).contains x)).length ≤ univ.length := List.length_filter_le _ _
+  omega
+
 end GrmVerif.Fix
